@@ -213,6 +213,15 @@ func observe(q *queue.Queue[int], ref []int, who string) *mc.Failure {
 	} else if !eq(sl, ref) {
 		return mc.Failf(0, "%s: Slice=%v want %v", who, sl, ref)
 	}
+	// the result belongs to the caller: writing to it must not reach the queue
+	for i := range sl {
+		sl[i] = -31337
+	}
+	if n > 0 {
+		if again := q.Slice(); !eq(again, ref) {
+			return mc.Failf(0, "%s: Slice returns a view of the queue's buffer: after the caller overwrote the result the queue holds %v, want %v", who, again, ref)
+		}
+	}
 	// Each, stopped after j items for every j, and run to completion.
 	for stop := 0; stop <= n+1; stop++ {
 		var got []int
